@@ -59,6 +59,9 @@ func rigEnded(r *Run) []Finding {
 		return addFinding(fs, "watchdog@"+lastSite(r), "the process was still running at the wall-clock watchdog", -1)
 	}
 	for _, e := range r.Events {
+		if e.Ev == "spin" {
+			fs = addFinding(fs, "hang.spin@"+lastSite(r), fmt.Sprintf("the procedure never ends: %v", e.Info["reason"]), -1)
+		}
 		if e.Ev == "hang" {
 			fs = addFinding(fs, "hang@"+lastSite(r), "blocked in Read with nothing in flight", -1)
 		}
